@@ -132,6 +132,33 @@ def plan(out, per_file=4, seed=1):
     print('planned', len(ms), 'mutants over', len(files), 'files')
 
 
+# round 4: helper modules no property is anchored in, with the properties whose mechanisms run through them
+HELPERS = {
+    'humphrey/src/stream.rs': ['C01', 'C02', 'C09', 'C11', 'C20'],
+    'humphrey/src/tokio/stream.rs': ['C01', 'C02'],
+    'humphrey/src/tokio/handlers.rs': ['C06'],
+    'humphrey/src/handler_traits.rs': ['C01', 'C04'],
+    'humphrey/src/tokio/handler_traits.rs': ['C01', 'C04'],
+    'humphrey-ws/src/ping.rs': ['C12'],
+    'humphrey-ws/src/util/restion.rs': ['C10', 'C11'],
+    'humphrey/src/monitor/event.rs': ['C01', 'C08'],
+    'humphrey-server/src/server/logger.rs': ['C15', 'C19'],
+}
+
+
+def plan_helpers(out, per_file=12, seed=4):
+    rng = random.Random(seed)
+    ms = []
+    for rel, props in sorted(HELPERS.items()):
+        p = '/repo/' + rel
+        if os.path.exists(p):
+            ms += mutants_of(p, rel, props, rng, per_file)
+    for k, m in enumerate(ms):
+        m['id'] = 'H%04d' % k
+    json.dump(ms, open(out, 'w'), indent=0)
+    print('planned', len(ms), 'mutants over', len(HELPERS), 'helper files')
+
+
 def sh(cmd, cwd, env=None, timeout=900):
     e = dict(os.environ)
     e.update(env or {})
@@ -221,7 +248,9 @@ def report():
 
 if __name__ == '__main__':
     a = sys.argv[1:]
-    if a[0] == 'plan':
+    if a[0] == 'plan-helpers':
+        plan_helpers(a[1], int(a[2]) if len(a) > 2 else 12, int(a[3]) if len(a) > 3 else 4)
+    elif a[0] == 'plan':
         plan(a[1], int(a[2]) if len(a) > 2 else 4, int(a[3]) if len(a) > 3 else 1)
     elif a[0] == 'work':
         work(a[1], a[2], int(a[3]), int(a[4]))
